@@ -25,7 +25,10 @@ def corr_implied(ctx):
     rng = ctx.rng
     ctx.rules.append("I10: Block.add_implied_levels on invented experiments of the active design (random levels, '' where "
                      "a factor does not apply) vs SPModel.Implied.column for every implied derived factor, entry by entry")
-    for case in OD.gen_cases(ctx, 10 if not ctx.big() else 80):
+    def maybe_implied(desc):
+        crossed = set(x for cr in OD._crossings(desc["block"]) for x in cr)
+        return any(f["window"] is not None and f["id"] not in crossed for f in desc["factors"])
+    for case in OD.gen_cases(ctx, 10 if not ctx.big() else 80, prefer=maybe_implied):
         blk = case.fresh_block()
         act = list(blk.act_design)
         implied = [f for f in blk.design if f not in act]
